@@ -93,6 +93,12 @@ def generate(rng, tier, idx):
     if how == 'fit':
         run['fit_data'] = {'kind': 'pobs', 'n': rng.randint(150, 400), 'tau': tau,
                            'seed': rng.randrange(2**31)}
+    if not edge_clayton and rng.random() < 0.06:
+        # theta given as a Python int (a hand-written dict / JSON file yields ints)
+        run.update({'how': 'param_int', 'theta_int': rng.choice([1, 2, 3, 5] if fam != 'Gumbel'
+                                                              else [2, 3, 4])})
+        run.pop('fit_data', None)
+        run['ops'].append({'op': 'sample', 'n': 2000})
     if edge_clayton:
         # tau == 0 is outside Clayton's domain (theta in (0, inf)): the object may refuse to
         # sample, but a sample it does return has to be a sample of the model it claims to be
@@ -153,6 +159,9 @@ def _build(run, ctx):
         if model.tau is None or not (abs(model.tau) <= 0.8) or abs(model.tau) < 0.01:
             ctx.probes['fitted_tau_outside_quantifier'] += 1
             return None, fam
+    elif run['how'] == 'param_int':
+        model.theta = int(run['theta_int'])
+        model.tau = refs.tau_of_theta(fam, float(model.theta))
     elif run['how'] == 'param_numpy':
         model.tau = np.float64(run['tau'])
         model.theta = np.float64(model.compute_theta())
@@ -266,6 +275,7 @@ def execute(run):
         return ctx.result()
     subject = type(model).__module__ + '.' + type(model).__name__ + '.sample'
     tb = '%+.1f' % (round(float(model.tau) * 5) / 5.0)
+    after_refusal = False
     for i, op in enumerate(run['ops']):
         ctx.op_index = i
         ctx.stats['ops'] += 1
@@ -288,13 +298,14 @@ def execute(run):
             X = zoo.gen_data(op['data'])
             o = outcome(model.fit, X)
             ctx.probes['refit_on_refused_data:' + outcome_class(o)] += 1
+            after_refusal = True           # from here on the object may refuse to sample
             ctx.event('refit_refused', outcome_class(o))
             if model.theta is None or model.tau is None:
                 break
         elif op['op'] == 'burst':
             for _ in range(op['k']):
                 proto = _check_call(ctx, run, model, fam, op['n'], subject,
-                                    run.get('how') == 'param_numpy')
+                                    run.get('how') == 'param_numpy' or after_refusal)
                 if proto in ('raised', 'badshape', 'badrange', 'refused') or ctx.violations:
                     break
             ctx.nontrivial = True
@@ -302,7 +313,8 @@ def execute(run):
             ctx.event('burst', op['k'], op['n'], proto, state_digest())
         elif op['op'] == 'sample':
             n = op['n']
-            proto = _check_call(ctx, run, model, fam, n, subject, op.get('may_refuse', False))
+            proto = _check_call(ctx, run, model, fam, n, subject,
+                                op.get('may_refuse', False) or after_refusal)
             ctx.nontrivial = True
             ncls = '1' if n == 1 else ('small' if n < 2000 else 'band')
             if n == 1:
